@@ -162,13 +162,20 @@ def checkCase (j : Json) : Except String Verdict := do
     let out := getJ st "out"
     let ora := getJ st "oracle"
     let presented := getJ st "presented"
+    -- a step that is not judged (below) still happened: time passed and the browser's jar may have changed, so the history
+    -- ghosts forget what they knew about this host rather than judge later steps on a stale record
+    let skipHost := strD inp "host"
     if !(getJ out "parseError").isNull || boolD out "straddled" then
+      clock := clock + intD inp "gap"
+      vdHist := vdHist.filter (·.1 != skipHost); episode := episode.filter (·.1 != skipHost); epFresh := epFresh.filter (· != skipHost)
       idx := idx + 1; continue
     -- exact-equality deadlines are unobservable with a real clock (DESIGN §1.3): skip the step
     let boundary := match sessOf (getJ presented "sess") with
       | some ps => ps.lifetime == 0 || ps.refresh == 0 || ps.valid == 0
       | none => false
     if boundary then
+      clock := clock + intD inp "gap"
+      vdHist := vdHist.filter (·.1 != skipHost); episode := episode.filter (·.1 != skipHost); epFresh := epFresh.filter (· != skipHost)
       idx := idx + 1; continue
     clock := clock + intD inp "gap"
     let host := strD ora "reqHost"
@@ -427,7 +434,7 @@ def checkCase (j : Json) : Except String Verdict := do
               | _, _ => pure ()
             | none => v := v.mon "C01" "session_minted_without_login" idx
             match chainLifetime.find? (·.1 == host) with
-            | some (_, lt) => if strD presented "kind" == "jar" && clock + ns.lifetime > lt then v := v.mons ["C04", "C01"] "lifetime_moved_later" idx
+            | some (_, lt) => if strD presented "kind" == "jar" && clock + ns.lifetime > lt + 1 then v := v.mons ["C04", "C01"] "lifetime_moved_later" idx
             | none => pure ()
         | none => pure ()
       -- C04 (history level, from the *calls* alone — the ghost `validityAfter` of C04_served_within_validity run on the trace):
